@@ -436,6 +436,27 @@ Proof.
   destruct Q as (H1 & H2 & H3 & H4 & H5 & H6). repeat split; assumption.
 Qed.
 
+Theorem static_whatever_is_imported :
+  forall syspath imported store phases r s',
+    run_phases false false store phases (init_state_with syspath imported) = (r, s') ->
+    executions s' = [] /\ inspections s' = [] /\ mods s' = imported.
+Proof.
+  intros syspath imported store phases r s' H.
+  destruct (static_entry_executes_nothing store phases (init_state_with syspath imported) r s' H) as (E & I & M & _).
+  repeat split; assumption.
+Qed.
+
+(* non-vacuity: the top-level package is in sys.modules already, its compiled submodule is not: skipped all the same *)
+Example preimported_package_stays_static :
+  let top := mkMod ["p"] ["sp"; "p"] "__init__" ".py" None in
+  let c := mkMod ["p"; "c"] ["sp"; "p"] "c" ".pyc" None in
+  let w := mkWorld [("p", FPkg top [c] None)] [(["p"], mkBeh (Some ["sp"]) true [] None); (["p"; "c"], mkBeh None true [] None)] [] [] in
+  let ph := mkPhase ELoad w [["sp"]] [] true (Some (RNode "p" [])) [] in
+  let '(r, s') := run_phases false false true [ph] (init_state_with [["sp"]] [["p"]]) in
+  r = None /\ executions s' = [] /\ mods s' = [["p"]] /\
+  filter (fun e => match e with EvSkip _ _ => true | _ => false end) (log s') = [EvSkip ["p"; "c"] ".pyc"].
+Proof. vm_compute. repeat split. Qed.
+
 (* ================================================================== C. compiled modules are skipped *)
 
 Lemma load_module_compiled :
